@@ -25,8 +25,9 @@ on the external Kabsch `func` and is sampled by the harness, not proved.
 -/
 import Mathlib.Algebra.Field.Rat
 import Molli.Lemmas.GeomOrdered
+import Molli.Lemmas.GeomView
 namespace Molli.Props.C11
-open Molli.Model.Geom Molli.Lemmas.Geom
+open Molli.Model.Geom Molli.Lemmas.Geom Molli.Lemmas.GeomView
 
 set_option linter.unusedVariables false
 set_option linter.unusedSectionVars false
@@ -272,6 +273,40 @@ theorem substructure_moves_only_selected (coords : List (V3 α)) (sel : List Nat
   refine ⟨updateSel_length coords sel f, fun i hi => ?_, fun i hi => ?_⟩
   · rw [updateSel_getElem?]; simp only [hi, if_false]; cases coords[i]? <;> rfl
   · rw [updateSel_getElem?]; simp only [hi, if_true]
+
+/-! ### substructure handles made BEFORE the parent was edited
+
+A `Substructure` keeps atom identities; `parent_atom_indices` resolves them against the parent's
+atom list at every `coords` access (`viewRows`).  So the claim "a substructure edit moves exactly the
+selected atoms" holds for a handle of any age. -/
+
+/-- Row by row, against the parent's CURRENT atom list (`atoms`, pairwise distinct identities):
+an edit through a handle changes row `i` iff the atom now sitting in row `i` belongs to the handle. -/
+theorem substructure_view_moves_its_atoms (atoms handle : List Nat) (hnd : atoms.Nodup)
+    (coords : List (V3 α)) (f : V3 α → V3 α) (i : Nat) :
+    (viewEdit atoms coords handle f)[i]? =
+      (coords[i]?).map (fun p => if selRow atoms handle i = true then f p else p) :=
+  viewEdit_getElem? atoms handle hnd coords f i
+
+/-- Edits of the parent made after the handle was created do not disturb it: deleting parent atom
+`k` (with its row) and then editing through the old handle is the same as editing first and deleting
+afterwards; likewise for an atom appended by `add_atom`. -/
+theorem substructure_view_survives_parent_edits (atoms handle : List Nat) (coords : List (V3 α))
+    (f : V3 α → V3 α) :
+    (∀ k, atoms.Nodup → viewEdit (atoms.eraseIdx k) (coords.eraseIdx k) handle f =
+      (viewEdit atoms coords handle f).eraseIdx k) ∧
+    (∀ a p, (atoms ++ [a]).Nodup → coords.length = atoms.length → a ∉ handle →
+      viewEdit (atoms ++ [a]) (coords ++ [p]) handle f = viewEdit atoms coords handle f ++ [p]) :=
+  ⟨fun k hnd => viewEdit_eraseIdx atoms handle hnd coords f k,
+   fun a p hnd hlen ha => viewEdit_append atoms handle hnd coords f p hlen ha⟩
+
+/-- A handle that froze its ROW NUMBERS when it was created would move the wrong atom after the
+parent lost a lower-indexed atom: atoms `[10,11,12,13]`, handle `{12}`, delete atom 10 — the frozen
+row 2 now holds atom 13. -/
+theorem substructure_cached_rows_counterexample :
+    viewEditCached [10, 11, 12, 13] [(⟨1, 0, 0⟩ : V3 Int), ⟨2, 0, 0⟩, ⟨3, 0, 0⟩] [12] (fun p => p.add ⟨0, 0, 5⟩) ≠
+    viewEdit [11, 12, 13] [(⟨1, 0, 0⟩ : V3 Int), ⟨2, 0, 0⟩, ⟨3, 0, 0⟩] [12] (fun p => p.add ⟨0, 0, 5⟩) := by
+  decide
 
 /-- "… within the moved part unchanged": after a rigid edit of the rows `sel`, any two (four) moved
 atoms keep their distance (signed volume); so do any unmoved ones. -/
